@@ -288,7 +288,9 @@ class AppCfgMgr:
                                               container))):
                 # Already in the process of being cleaned up
                 _LOGGER.info('Ignoring %s as it is in cleanup', appname)
-                cached.pop(appname, None)
+                # The cache entry may name a newer container of the instance.
+                if cached.get(appname) == container:
+                    cached.pop(appname, None)
 
             else:
                 needs_cleanup = True
